@@ -2,7 +2,7 @@
 
 PROPS = {
     "C18": {
-        "modules": ["contracts.c18_node_scheduler"],
+        "modules": ["contracts.c18_node_scheduler", "contracts.c03_node", "contracts.c02_graph_sched"],
         "level": "proof",
         "design_ref": "DESIGN.md section 8, C18",
         "trusted_base": [
@@ -19,7 +19,7 @@ PROPS = {
     },
     "C02": {
         "modules": ["contracts.c02_graph_sched", "contracts.c14_lifecycle", "contracts.c17_executor",
-                    "contracts.c18_node_scheduler"],
+                    "contracts.c18_node_scheduler", "contracts.c03_node", "contracts.c09_nested"],
         "level": "proof",
         "design_ref": "DESIGN.md section 8, C02",
         "trusted_base": [
@@ -35,7 +35,8 @@ PROPS = {
         "not_decided": ["wake-ups inside map_/mesh children (their own queues)", "nested delegation (C09 kernels)"],
     },
     "C14": {
-        "modules": ["contracts.c14_lifecycle", "contracts.c02_graph_sched", "contracts.c17_executor"],
+        "modules": ["contracts.c14_lifecycle", "contracts.c02_graph_sched", "contracts.c17_executor",
+                    "contracts.c03_node", "contracts.c09_nested"],
         "level": "proof",
         "design_ref": "DESIGN.md section 8, C14",
         "trusted_base": [
